@@ -615,55 +615,92 @@ Proof.
   intros h. rewrite (view_eq (r_st r')). rewrite A. unfold staged_of. rewrite Est. reflexivity.
 Qed.
 
-(** ** Retention by number and age: what the loop of [find_deltas_truncate_age] guarantees *)
+(** ** Retention by number and age: what the loop of [find_deltas_truncate_age] guarantees
+
+    The code of record ([CountGe], rrdp.rs 434-456 since commit 5d8ba60d). *)
 Lemma usize_pred_pos a n : 1 <= n -> usize_pred a n = Some (n - 1).
 Proof. intros H. unfold usize_pred. destruct (n =? 0) eqn:E; [apply N.eqb_eq in E; lia|reflexivity]. Qed.
 
-Lemma age_loop_le a c now ds : forall keep k, age_loop a c now ds keep = Some k -> keep <= k <= keep + N.of_nat (length ds).
+Definition w_young (t : Z) (s : N) : ddata := mkD s t 0 [].
+
+Lemma age_loop_le_v v a c now ds : forall keep k, age_loop_v v a c now ds keep = Some k -> keep <= k <= keep + N.of_nat (length ds).
 Proof.
   induction ds as [|d ds IH]; intros keep k H; simpl in H.
   - inv H. simpl. lia.
   - simpl length. destruct (_ || _).
     + apply IH in H. lia.
-    + destruct (usize_pred a (c_max_nr c)) as [m|]; [|discriminate].
-      destruct (_ || _); [inv H; lia|apply IH in H; lia].
+    + destruct v.
+      * destruct (usize_pred a (c_max_nr c)) as [m|]; [|discriminate].
+        destruct (_ || _); [inv H; lia|apply IH in H; lia].
+      * destruct (_ || _); [inv H; lia|apply IH in H; lia].
 Qed.
 
-(** If the delta at index [max_nr - 1] is not protected, the count test fires there at the
-    latest. *)
-Lemma age_loop_bound a c now ds : forall keep k,
-  1 <= c_max_nr c -> keep <= c_max_nr c - 1 ->
-  age_loop a c now ds keep = Some k ->
-  (forall x, nth_error ds (N.to_nat (c_max_nr c - 1 - keep)) = Some x -> protected c now (c_max_nr c - 1) x = false) ->
-  k <= c_max_nr c - 1.
+(** The repaired loop never panics and does not depend on the arithmetic mode. *)
+Lemma age_loop_ge_total c now ds : forall keep, exists k, forall a', age_loop_v CountGe a' c now ds keep = Some k.
 Proof.
-  induction ds as [|d ds IH]; intros keep k H1 Hk H Hp; simpl in H; [inv H; assumption|].
-  rewrite (usize_pred_pos a _ H1) in H.
-  destruct (N.eq_dec keep (c_max_nr c - 1)) as [E|E].
-  - assert (P : protected c now (c_max_nr c - 1) d = false).
-    { apply Hp. rewrite E, N.sub_diag. reflexivity. }
-    unfold protected in P. rewrite <- E in P. rewrite P in H. rewrite E, N.eqb_refl in H. simpl in H. inv H. lia.
-  - assert (Hn : forall x, nth_error ds (N.to_nat (c_max_nr c - 1 - (keep + 1))) = Some x -> protected c now (c_max_nr c - 1) x = false).
-    { intros x Hx. apply Hp. replace (N.to_nat (c_max_nr c - 1 - keep)) with (S (N.to_nat (c_max_nr c - 1 - (keep + 1)))) by lia. exact Hx. }
-    destruct (_ || _).
-    + apply (IH (keep + 1)); auto; lia.
-    + destruct (_ || _); [inv H; assumption|apply (IH (keep + 1)); auto; lia].
+  induction ds as [|d ds IH]; intros keep; simpl; [exists keep; reflexivity|].
+  destruct (IH (keep + 1)) as [k1 H1].
+  destruct (_ || _); [exists k1; exact H1|]. destruct (_ || _); [exists keep; reflexivity|exists k1; exact H1].
+Qed.
+Theorem find_total c now ds : exists k, forall a', find_deltas_truncate_age a' c now ds = Some k.
+Proof. unfold find_deltas_truncate_age, find_deltas_truncate_age_v, retention_rule. apply age_loop_ge_total. Qed.
+
+Theorem rstep_total a sz r o orc : exists r', rstep a sz r o orc = Some r'.
+Proof.
+  unfold rstep. destruct o; try (eexists; reflexivity).
+  destruct (staged_nonempty (r_st r)); [|eexists; reflexivity].
+  destruct (find_total (or_cfg orc) (or_now orc) (r_deltas r)) as [k Hk]. rewrite (Hk a). eexists. reflexivity.
 Qed.
 
-(** The strongest bound by number: more than [max_nr - 1] old deltas survive only if the delta at
-    index [max_nr - 1] is protected (then the test [keep == max_nr - 1] is passed over and never
-    fires again). *)
+(** Every old delta the loop keeps is protected, or is neither too old nor beyond the count. *)
+Lemma age_loop_ge_kept a c now ds : forall keep k, age_loop_v CountGe a c now ds keep = Some k ->
+  forall i x, nth_error ds i = Some x -> keep + N.of_nat i < k ->
+  protected c now (keep + N.of_nat i) x = true
+  \/ (older_than now (c_max_secs c) x = false /\ keep + N.of_nat i + 1 < c_max_nr c).
+Proof.
+  induction ds as [|d ds IH]; intros keep k H i x Hn Hi; [destruct i; discriminate|].
+  simpl in H. destruct i as [|i]; simpl in Hn.
+  - inv Hn. rewrite N.add_0_r in *. unfold protected. destruct (_ || _) eqn:P; [left; reflexivity|right].
+    destruct ((c_max_nr c <=? keep + 1) || older_than now (c_max_secs c) x) eqn:B; [inv H; lia|].
+    apply orb_false_iff in B. destruct B as [B1 B2]. apply N.leb_gt in B1. split; [exact B2|lia].
+  - replace (keep + N.of_nat (S i)) with (keep + 1 + N.of_nat i) in * by lia.
+    destruct (_ || _); [eapply IH; eassumption|].
+    destruct (_ || _); [inv H; lia|eapply IH; eassumption].
+Qed.
+
+(** [kept_beyond_max_protected]: an old delta kept at an index where the count (with the new
+    delta) exceeds max_nr is protected by min_nr or min_seconds. This is all that is left of
+    "more than max_nr deltas": the documented priority of the configured minimums. *)
+Theorem kept_beyond_max_protected a : retention_explained (find_deltas_truncate_age a).
+Proof.
+  intros c now ds k i x H Hn Hi Hm. unfold find_deltas_truncate_age, find_deltas_truncate_age_v, retention_rule in H.
+  destruct (age_loop_ge_kept a c now ds 0 k H i x Hn) as [P|[_ Hlt]]; [lia|exact P|lia].
+Qed.
+
+Theorem kept_not_old a c now ds k i x :
+  find_deltas_truncate_age a c now ds = Some k -> nth_error ds i = Some x -> N.of_nat i < k ->
+  protected c now (N.of_nat i) x = true \/ older_than now (c_max_secs c) x = false.
+Proof.
+  intros H Hn Hi. unfold find_deltas_truncate_age, find_deltas_truncate_age_v, retention_rule in H.
+  destruct (age_loop_ge_kept a c now ds 0 k H i x Hn) as [P|[O _]]; [lia|left; exact P|right; exact O].
+Qed.
+
+(** The strongest bounds by number. If the delta at index max_nr - 1 is not protected, at most
+    max_nr - 1 old deltas are kept ... *)
 Theorem retention_bound_strong a c now ds k :
   1 <= c_max_nr c -> find_deltas_truncate_age a c now ds = Some k ->
   (forall x, nth_error ds (N.to_nat (c_max_nr c - 1)) = Some x -> protected c now (c_max_nr c - 1) x = false) ->
   k <= c_max_nr c - 1.
 Proof.
-  intros H1 H Hp. apply (age_loop_bound a c now ds 0 k H1); [lia|exact H|].
-  rewrite N.sub_0_r. exact Hp.
+  intros H1 H Hp. destruct (N.le_gt_cases k (c_max_nr c - 1)) as [Hle|Hgt]; [exact Hle|exfalso].
+  assert (Hl : k <= N.of_nat (length ds)).
+  { unfold find_deltas_truncate_age, find_deltas_truncate_age_v in H. apply age_loop_le_v in H. lia. }
+  destruct (nth_error ds (N.to_nat (c_max_nr c - 1))) as [x|] eqn:En; [|apply nth_error_None in En; lia].
+  pose proof (kept_beyond_max_protected a c now ds k _ x H En) as P. rewrite N2Nat.id in P.
+  rewrite (Hp x eq_refl) in P. assert (true = false -> False) by discriminate. apply H0. symmetry. apply P; lia.
 Qed.
 
-(** [retention_bound] in the form of DESIGN Appendix A.4: if no delta at an index >= max_nr - 1
-    is protected, at most max_nr - 1 old deltas are kept (so at most max_nr with the new one). *)
+(** ... in the form of DESIGN Appendix A.4 ... *)
 Theorem retention_bound a c now ds k :
   1 <= c_max_nr c -> find_deltas_truncate_age a c now ds = Some k ->
   (forall i x, nth_error ds i = Some x -> c_max_nr c - 1 <= N.of_nat i -> protected c now (N.of_nat i) x = false) ->
@@ -673,121 +710,191 @@ Proof.
   intros x Hx. specialize (Hp _ _ Hx). rewrite N2Nat.id in Hp. apply Hp. lia.
 Qed.
 
-(** Every old delta that is kept is protected, or neither too old nor at the count limit. *)
-Lemma age_loop_kept a c now ds : forall keep k m,
-  usize_pred a (c_max_nr c) = Some m \/ (forall i x, nth_error ds i = Some x -> protected c now (keep + N.of_nat i) x = true) ->
-  age_loop a c now ds keep = Some k ->
-  forall i x, nth_error ds i = Some x -> keep + N.of_nat i < k ->
-    protected c now (keep + N.of_nat i) x = true
-    \/ (older_than now (c_max_secs c) x = false /\ usize_pred a (c_max_nr c) <> Some (keep + N.of_nat i)).
+(** ... and for every configuration: if only the first [p] old deltas can be protected (deltas
+    are listed newest first, so those younger than min_seconds and those counted by min_nr form
+    an initial segment), at most max (max_nr - 1) p old deltas are kept. *)
+Theorem retention_max_or_protected a c now ds k p :
+  find_deltas_truncate_age a c now ds = Some k ->
+  (forall i x, nth_error ds i = Some x -> p <= N.of_nat i -> protected c now (N.of_nat i) x = false) ->
+  k <= N.max (c_max_nr c - 1) p.
 Proof.
-  induction ds as [|d ds IH]; intros keep k m Hm H i x Hn Hi; [destruct i; discriminate|].
-  simpl in H. destruct i as [|i]; simpl in Hn.
-  - inv Hn. rewrite N.add_0_r in *. unfold protected. destruct (_ || _) eqn:P; [left; reflexivity|right].
-    destruct (usize_pred a (c_max_nr c)) as [m'|]; [|discriminate].
-    destruct ((keep =? m') || older_than now (c_max_secs c) x) eqn:B; [inv H; lia|].
-    apply orb_false_iff in B. destruct B as [B1 B2]. apply N.eqb_neq in B1. split; [exact B2|congruence].
-  - replace (keep + N.of_nat (S i)) with (keep + 1 + N.of_nat i) in * by lia.
-    assert (Hm' : usize_pred a (c_max_nr c) = Some m \/ (forall j y, nth_error ds j = Some y -> protected c now (keep + 1 + N.of_nat j) y = true)).
-    { destruct Hm as [Hm|Hm]; [left; exact Hm|right]. intros j y Hy. specialize (Hm (S j) y Hy).
-      replace (keep + N.of_nat (S j)) with (keep + 1 + N.of_nat j) in Hm by lia. exact Hm. }
-    destruct (_ || _).
-    + eapply IH; eassumption.
-    + destruct (usize_pred a (c_max_nr c)); [|discriminate].
-      destruct (_ || _); [inv H; lia|eapply IH; eassumption].
+  intros H Hp. destruct (N.le_gt_cases k (N.max (c_max_nr c - 1) p)) as [Hle|Hgt]; [exact Hle|exfalso].
+  assert (Hl : k <= N.of_nat (length ds)).
+  { unfold find_deltas_truncate_age, find_deltas_truncate_age_v in H. apply age_loop_le_v in H. lia. }
+  destruct (nth_error ds (N.to_nat (k - 1))) as [x|] eqn:En; [|apply nth_error_None in En; lia].
+  pose proof (kept_beyond_max_protected a c now ds k _ x H En) as P. rewrite N2Nat.id in P.
+  pose proof (Hp _ x En) as Hf. rewrite N2Nat.id in Hf. rewrite Hf in P by lia.
+  assert (true = false -> False) by discriminate. apply H0. symmetry. apply P; lia.
 Qed.
 
-Theorem kept_not_old a c now ds k i x :
-  find_deltas_truncate_age a c now ds = Some k -> nth_error ds i = Some x -> N.of_nat i < k ->
-  protected c now (N.of_nat i) x = true \/ older_than now (c_max_secs c) x = false.
+(** The loop never cuts into the leading run of protected deltas ("always keep min_nr files,
+    always keep files younger than min_seconds"), with either count test. *)
+Lemma age_loop_protected_v v a c now ds : forall keep k j,
+  age_loop_v v a c now ds keep = Some k -> (j <= length ds)%nat ->
+  (forall i x, (i < j)%nat -> nth_error ds i = Some x -> protected c now (keep + N.of_nat i) x = true) ->
+  keep + N.of_nat j <= k.
 Proof.
-  intros H Hn Hi. unfold find_deltas_truncate_age in H.
-  destruct (usize_pred a (c_max_nr c)) as [m|] eqn:Em.
-  - destruct (age_loop_kept a c now ds 0 k m (or_introl Em) H i x Hn) as [P|[O _]]; [lia|left; exact P|right; exact O].
-  - (* the subtraction would have panicked: the loop only passed protected deltas *)
-    assert (G : forall ds keep k, age_loop a c now ds keep = Some k -> forall j y, nth_error ds j = Some y -> keep + N.of_nat j < k -> protected c now (keep + N.of_nat j) y = true).
-    { clear - Em. induction ds as [|d ds IH]; intros keep k H j y Hy Hj; [destruct j; discriminate|].
-      simpl in H. rewrite Em in H. destruct ((keep <? c_min_nr c) || younger_than now (c_min_secs c) d) eqn:P; [|discriminate].
-      destruct j as [|j]; simpl in Hy.
-      - inv Hy. rewrite N.add_0_r. exact P.
-      - replace (keep + N.of_nat (S j)) with (keep + 1 + N.of_nat j) in * by lia. eapply IH; eassumption. }
-    left. apply (G ds 0 k H i x Hn). lia.
+  induction ds as [|d ds IH]; intros keep k j H Hj Hp.
+  - simpl in Hj. assert (j = 0%nat) by lia. subst j. simpl in H. inv H. simpl. lia.
+  - destruct j as [|j]; [apply age_loop_le_v in H; simpl; lia|].
+    simpl in H. assert (P : protected c now keep d = true).
+    { specialize (Hp 0%nat d (Nat.lt_0_succ _) eq_refl). rewrite N.add_0_r in Hp. exact Hp. }
+    unfold protected in P. rewrite P in H.
+    assert (G : keep + 1 + N.of_nat j <= k).
+    { apply (IH (keep + 1) k j H); [simpl in Hj; lia|].
+      intros i x Hi Hx. specialize (Hp (S i) x (proj1 (Nat.succ_lt_mono _ _) Hi) Hx).
+      replace (keep + N.of_nat (S i)) with (keep + 1 + N.of_nat i) in Hp by lia. exact Hp. }
+    lia.
+Qed.
+
+Theorem protected_prefix_kept a c now ds k j :
+  find_deltas_truncate_age a c now ds = Some k -> (j <= length ds)%nat ->
+  (forall i x, (i < j)%nat -> nth_error ds i = Some x -> protected c now (N.of_nat i) x = true) ->
+  N.of_nat j <= k.
+Proof.
+  intros H Hj Hp. pose proof (age_loop_protected_v retention_rule a c now ds 0 k j H Hj) as G. simpl in G. apply G.
+  intros i x Hi Hx. simpl. apply Hp; assumption.
 Qed.
 
 (** Where the loop stops: at the end of the list, or at the first delta that is not protected
-    and is at the count limit or too old. *)
+    and is at or beyond the count limit or too old. *)
 Theorem truncate_age_stop a c now ds k :
   find_deltas_truncate_age a c now ds = Some k ->
   k = N.of_nat (length ds) \/
-  exists x m, nth_error ds (N.to_nat k) = Some x /\ protected c now k x = false
-              /\ usize_pred a (c_max_nr c) = Some m /\ (k = m \/ older_than now (c_max_secs c) x = true).
+  exists x, nth_error ds (N.to_nat k) = Some x /\ protected c now k x = false
+            /\ (c_max_nr c <= k + 1 \/ older_than now (c_max_secs c) x = true).
 Proof.
-  unfold find_deltas_truncate_age.
-  assert (G : forall ds keep k, age_loop a c now ds keep = Some k ->
+  unfold find_deltas_truncate_age, find_deltas_truncate_age_v, retention_rule.
+  assert (G : forall ds keep k, age_loop_v CountGe a c now ds keep = Some k ->
     k = keep + N.of_nat (length ds) \/
-    exists x m, nth_error ds (N.to_nat (k - keep)) = Some x /\ protected c now k x = false
-                /\ usize_pred a (c_max_nr c) = Some m /\ (k = m \/ older_than now (c_max_secs c) x = true)).
+    exists x, nth_error ds (N.to_nat (k - keep)) = Some x /\ protected c now k x = false
+              /\ (c_max_nr c <= k + 1 \/ older_than now (c_max_secs c) x = true)).
   { clear. induction ds as [|d ds IH]; intros keep k H; simpl in H; [inv H; left; simpl; lia|].
     simpl length. destruct ((keep <? c_min_nr c) || younger_than now (c_min_secs c) d) eqn:P.
-    - pose proof (age_loop_le _ _ _ _ _ _ H) as Hl.
-      destruct (IH _ _ H) as [E|[x [m [Hx R]]]]; [left; lia|right].
-      exists x, m. split; [|exact R]. replace (N.to_nat (k - keep)) with (S (N.to_nat (k - (keep + 1)))) by lia. exact Hx.
-    - destruct (usize_pred a (c_max_nr c)) as [m|] eqn:Em; [|discriminate].
-      destruct ((keep =? m) || older_than now (c_max_secs c) d) eqn:B.
-      + inv H. right. exists d, m. rewrite N.sub_diag. split; [reflexivity|]. split; [exact P|]. split; [reflexivity|].
-        apply orb_true_iff in B. destruct B as [B|B]; [left; apply N.eqb_eq; exact B|right; exact B].
-      + pose proof (age_loop_le _ _ _ _ _ _ H) as Hl.
-        destruct (IH _ _ H) as [E|[x [m' [Hx R]]]]; [left; lia|right].
-        exists x, m'. split; [|exact R]. replace (N.to_nat (k - keep)) with (S (N.to_nat (k - (keep + 1)))) by lia. exact Hx. }
-  intros H. destruct (G ds 0 k H) as [E|[x [m [Hx R]]]]; [left; lia|right].
-  exists x, m. rewrite N.sub_0_r in Hx. auto.
+    - pose proof (age_loop_le_v _ _ _ _ _ _ _ H) as Hl.
+      destruct (IH _ _ H) as [E|[x [Hx R]]]; [left; lia|right].
+      exists x. split; [|exact R]. replace (N.to_nat (k - keep)) with (S (N.to_nat (k - (keep + 1)))) by lia. exact Hx.
+    - destruct ((c_max_nr c <=? keep + 1) || older_than now (c_max_secs c) d) eqn:B.
+      + inv H. right. exists d. rewrite N.sub_diag. split; [reflexivity|]. split; [exact P|].
+        apply orb_true_iff in B. destruct B as [B|B]; [left; apply N.leb_le; exact B|right; exact B].
+      + pose proof (age_loop_le_v _ _ _ _ _ _ _ H) as Hl.
+        destruct (IH _ _ H) as [E|[x [Hx R]]]; [left; lia|right].
+        exists x. split; [|exact R]. replace (N.to_nat (k - keep)) with (S (N.to_nat (k - (keep + 1)))) by lia. exact Hx. }
+  intros H. destruct (G ds 0 k H) as [E|[x [Hx R]]]; [left; lia|right].
+  exists x. rewrite N.sub_0_r in Hx. auto.
 Qed.
 
-(** After the step: at most one more delta than the loop kept (the size rule only removes). *)
+(** Where the delta at index max_nr - 1 is not protected the two count tests agree (that is
+    where the old one worked). *)
+Lemma age_loop_rules_agree a c now ds : forall keep,
+  1 <= c_max_nr c -> keep <= c_max_nr c - 1 ->
+  (forall x, nth_error ds (N.to_nat (c_max_nr c - 1 - keep)) = Some x -> protected c now (c_max_nr c - 1) x = false) ->
+  age_loop_v CountGe a c now ds keep = age_loop_v CountEq a c now ds keep.
+Proof.
+  induction ds as [|d ds IH]; intros keep H1 Hk Hp; [reflexivity|]. simpl.
+  rewrite (usize_pred_pos a _ H1).
+  assert (Hn : keep < c_max_nr c - 1 ->
+               forall x, nth_error ds (N.to_nat (c_max_nr c - 1 - (keep + 1))) = Some x -> protected c now (c_max_nr c - 1) x = false).
+  { intros Hlt x Hx. apply Hp. replace (N.to_nat (c_max_nr c - 1 - keep)) with (S (N.to_nat (c_max_nr c - 1 - (keep + 1)))) by lia. exact Hx. }
+  destruct (N.eq_dec keep (c_max_nr c - 1)) as [E|E].
+  - assert (P : protected c now (c_max_nr c - 1) d = false) by (apply Hp; rewrite E, N.sub_diag; reflexivity).
+    unfold protected in P. rewrite <- E in P. rewrite P.
+    rewrite E, N.eqb_refl. replace (c_max_nr c <=? c_max_nr c - 1 + 1) with true by (symmetry; apply N.leb_le; lia). reflexivity.
+  - assert (Hlt : keep < c_max_nr c - 1) by lia.
+    replace (c_max_nr c <=? keep + 1) with false by (symmetry; apply N.leb_gt; lia).
+    replace (keep =? c_max_nr c - 1) with false by (symmetry; apply N.eqb_neq; exact E).
+    rewrite (IH (keep + 1) H1 ltac:(lia) (Hn Hlt)). reflexivity.
+Qed.
+Theorem rules_agree_where_unprotected a c now ds :
+  1 <= c_max_nr c ->
+  (forall x, nth_error ds (N.to_nat (c_max_nr c - 1)) = Some x -> protected c now (c_max_nr c - 1) x = false) ->
+  find_deltas_truncate_age a c now ds = find_deltas_truncate_age_v CountEq a c now ds.
+Proof.
+  intros H1 Hp. unfold find_deltas_truncate_age, find_deltas_truncate_age_v, retention_rule.
+  apply age_loop_rules_agree; [exact H1|lia|rewrite N.sub_0_r; exact Hp].
+Qed.
+
+(** After the step: the new delta followed by an initial segment of the old ones, at most one
+    more than the loop kept (the size rule only removes). *)
+Theorem retained_shape a sz r orc r' k :
+  rstep a sz r OUpdate orc = Some r' -> staged_nonempty (r_st r) = true ->
+  find_deltas_truncate_age a (or_cfg orc) (or_now orc) (r_deltas r) = Some k ->
+  exists dn m, r_deltas r' = firstn m (dn :: firstn (N.to_nat k) (r_deltas r)).
+Proof.
+  intros H En Ek. unfold rstep in H. rewrite En, Ek in H. inv H.
+  unfold apply_rrdp_updated. cbn [r_deltas u_truncate]. unfold deltas_truncate_size. eexists. eexists. reflexivity.
+Qed.
 Theorem retained_le_kept_plus_one a sz r orc r' k :
   rstep a sz r OUpdate orc = Some r' -> staged_nonempty (r_st r) = true ->
   find_deltas_truncate_age a (or_cfg orc) (or_now orc) (r_deltas r) = Some k ->
   N.of_nat (length (r_deltas r')) <= k + 1.
 Proof.
-  intros H En Ek. unfold rstep in H. rewrite En, Ek in H. inv H.
-  unfold apply_rrdp_updated. cbn [r_deltas u_truncate]. unfold deltas_truncate_size.
+  intros H En Ek. destruct (retained_shape _ _ _ _ _ _ H En Ek) as [dn [m ->]].
   rewrite firstn_length. simpl length. rewrite firstn_length. lia.
 Qed.
 
-(** The property's clause "the retained deltas never exceed the configured maximum number",
-    under the condition under which it is true. *)
-Theorem retention_system a sz r orc r' :
+(** On the server: a retained delta at a position beyond the configured maximum (position 0 is
+    the new delta) is an old delta protected by min_nr or min_seconds. *)
+Theorem retention_explained_system a sz r orc r' j d :
   rstep a sz r OUpdate orc = Some r' -> staged_nonempty (r_st r) = true ->
-  1 <= c_max_nr (or_cfg orc) ->
-  (forall x, nth_error (r_deltas r) (N.to_nat (c_max_nr (or_cfg orc) - 1)) = Some x ->
-             protected (or_cfg orc) (or_now orc) (c_max_nr (or_cfg orc) - 1) x = false) ->
-  N.of_nat (length (r_deltas r')) <= c_max_nr (or_cfg orc).
+  nth_error (r_deltas r') (S j) = Some d -> c_max_nr (or_cfg orc) <= N.of_nat (S j) ->
+  nth_error (r_deltas r) j = Some d /\ protected (or_cfg orc) (or_now orc) (N.of_nat j) d = true.
 Proof.
-  intros H En H1 Hp.
-  destruct (find_deltas_truncate_age a (or_cfg orc) (or_now orc) (r_deltas r)) as [k|] eqn:Ek.
-  - pose proof (retained_le_kept_plus_one _ _ _ _ _ _ H En Ek).
-    pose proof (retention_bound_strong _ _ _ _ _ H1 Ek Hp). lia.
-  - unfold rstep in H. rewrite En, Ek in H. discriminate.
+  intros H En Hn Hm.
+  destruct (find_total (or_cfg orc) (or_now orc) (r_deltas r)) as [k Hk]. specialize (Hk a).
+  destruct (retained_shape _ _ _ _ _ _ H En Hk) as [dn [m E]]. rewrite E in Hn.
+  (* position S j of [firstn m (dn :: firstn k old)] is position j of [old], below k *)
+  assert (Hj : nth_error (firstn (N.to_nat k) (r_deltas r)) j = Some d).
+  { destruct m as [|m]; [destruct j; discriminate|]. cbn [firstn nth_error] in Hn.
+    clear - Hn. revert m Hn. generalize (firstn (N.to_nat k) (r_deltas r)) as l. intros l. revert j.
+    induction l as [|a l IH]; intros j m Hn; [rewrite firstn_nil in Hn; destruct j; discriminate|].
+    destruct m as [|m]; [destruct j; discriminate|]. destruct j as [|j]; [exact Hn|]. simpl in *. eapply IH. exact Hn. }
+  assert (Hjk : (j < N.to_nat k)%nat /\ nth_error (r_deltas r) j = Some d).
+  { clear - Hj. revert j Hj. generalize (N.to_nat k) as n. generalize (r_deltas r) as l.
+    induction l as [|a l IH]; intros n j Hj; [rewrite firstn_nil in Hj; destruct j; discriminate|].
+    destruct n as [|n]; [destruct j; discriminate|]. destruct j as [|j]; [split; [lia|exact Hj]|].
+    simpl in Hj. destruct (IH _ _ Hj). split; [lia|assumption]. }
+  destruct Hjk as [Hlt Hd]. split; [exact Hd|].
+  apply (kept_beyond_max_protected a (or_cfg orc) (or_now orc) (r_deltas r) k j d Hk Hd); lia.
 Qed.
 
-(** *** F11a: the unconditional bound is false *)
-Definition w_young (t : Z) (s : N) : ddata := mkD s t 0 [].
-(** max_nr = 2, min_seconds = 1 h, three deltas made within the last seconds: all three are kept
-    (four with the new one). *)
-Example retention_young_refuted :
+(** The clause "the retained deltas never exceed the configured maximum number" as far as it is
+    true: never more than max (max_nr) (1 + p) where only the first p old deltas can be
+    protected by the configured minimums. *)
+Theorem retention_system a sz r orc r' p :
+  rstep a sz r OUpdate orc = Some r' -> staged_nonempty (r_st r) = true ->
+  (forall i x, nth_error (r_deltas r) i = Some x -> p <= N.of_nat i ->
+               protected (or_cfg orc) (or_now orc) (N.of_nat i) x = false) ->
+  N.of_nat (length (r_deltas r')) <= N.max (c_max_nr (or_cfg orc)) (1 + p).
+Proof.
+  intros H En Hp.
+  destruct (find_total (or_cfg orc) (or_now orc) (r_deltas r)) as [k Hk]. specialize (Hk a).
+  pose proof (retained_le_kept_plus_one _ _ _ _ _ _ H En Hk).
+  pose proof (retention_max_or_protected _ _ _ _ _ _ Hk Hp). lia.
+Qed.
+
+Example retention_bound_nonvacuous :
+  find_deltas_truncate_age Checked (mkCfg 0 0 2 7200 false) 100000000%Z
+    [w_young 99000000 4; w_young 98000000 3; w_young 97000000 2] = Some 1.
+Proof. vm_compute. reflexivity. Qed.
+(** The configurations on which the old count test kept unprotected deltas beyond the maximum. *)
+Example repaired_min_eq_max :
+  find_deltas_truncate_age Checked (mkCfg 1 0 1 7200 false) 100000000%Z
+    [w_young 99000000 5; w_young 98000000 4; w_young 97000000 3; w_young 96000000 2] = Some 1.
+Proof. vm_compute. reflexivity. Qed.
+Example repaired_max_nr_zero :
+  find_deltas_truncate_age Checked (mkCfg 0 0 0 7200 false) 100000000%Z
+    [w_young 99000000 4; w_young 98000000 3; w_young 97000000 2] = Some 0.
+Proof. vm_compute. reflexivity. Qed.
+
+(** *** What remains of F11a: the configured minimums have priority over the maximum *)
+Example retention_young_exceeds :
   find_deltas_truncate_age Checked (mkCfg 0 3600 2 7200 false) 100000000%Z
     [w_young 99000000 4; w_young 98000000 3; w_young 97000000 2] = Some 3.
 Proof. vm_compute. reflexivity. Qed.
-(** min_nr = 5 >= max_nr = 2, even with every delta older than max_seconds = 0: five are kept. *)
-Example retention_min_ge_max_refuted :
+Example retention_min_ge_max_exceeds :
   find_deltas_truncate_age Checked (mkCfg 5 0 2 0 false) 100000000%Z
     [w_young 5 7; w_young 4 6; w_young 3 5; w_young 2 4; w_young 1 3; w_young 0 2] = Some 5.
-Proof. vm_compute. reflexivity. Qed.
-(** min_nr = max_nr = 1: index 0 is protected, so the count test (keep == 0) is passed over and
-    nothing is ever cut by number. *)
-Example retention_min_eq_max_refuted :
-  find_deltas_truncate_age Checked (mkCfg 1 0 1 7200 false) 100000000%Z
-    [w_young 99000000 5; w_young 98000000 4; w_young 97000000 3; w_young 96000000 2] = Some 4.
 Proof. vm_compute. reflexivity. Qed.
 
 (** The same on the whole server: a reachable state, one update, three retained deltas under
@@ -826,40 +933,228 @@ Proof.
   vm_compute in E. inv E. destruct H as [H|H]; [vm_compute in H; apply H; reflexivity|discriminate].
 Qed.
 
+
+(** ** The count test before commit 5d8ba60d ([CountEq]): regression examples
+
+    What the loop guaranteed then, and the witnesses of findings F11a (defect part) and F11b. *)
+Lemma age_loop_le_pinned a c now ds : forall keep k, age_loop_v CountEq a c now ds keep = Some k -> keep <= k <= keep + N.of_nat (length ds).
+Proof.
+  induction ds as [|d ds IH]; intros keep k H; simpl in H.
+  - inv H. simpl. lia.
+  - simpl length. destruct (_ || _).
+    + apply IH in H. lia.
+    + destruct (usize_pred a (c_max_nr c)) as [m|]; [|discriminate].
+      destruct (_ || _); [inv H; lia|apply IH in H; lia].
+Qed.
+
+(** If the delta at index [max_nr - 1] is not protected, the count test fires there at the
+    latest. *)
+Lemma age_loop_bound_pinned a c now ds : forall keep k,
+  1 <= c_max_nr c -> keep <= c_max_nr c - 1 ->
+  age_loop_v CountEq a c now ds keep = Some k ->
+  (forall x, nth_error ds (N.to_nat (c_max_nr c - 1 - keep)) = Some x -> protected c now (c_max_nr c - 1) x = false) ->
+  k <= c_max_nr c - 1.
+Proof.
+  induction ds as [|d ds IH]; intros keep k H1 Hk H Hp; simpl in H; [inv H; assumption|].
+  rewrite (usize_pred_pos a _ H1) in H.
+  destruct (N.eq_dec keep (c_max_nr c - 1)) as [E|E].
+  - assert (P : protected c now (c_max_nr c - 1) d = false).
+    { apply Hp. rewrite E, N.sub_diag. reflexivity. }
+    unfold protected in P. rewrite <- E in P. rewrite P in H. rewrite E, N.eqb_refl in H. simpl in H. inv H. lia.
+  - assert (Hn : forall x, nth_error ds (N.to_nat (c_max_nr c - 1 - (keep + 1))) = Some x -> protected c now (c_max_nr c - 1) x = false).
+    { intros x Hx. apply Hp. replace (N.to_nat (c_max_nr c - 1 - keep)) with (S (N.to_nat (c_max_nr c - 1 - (keep + 1)))) by lia. exact Hx. }
+    destruct (_ || _).
+    + apply (IH (keep + 1)); auto; lia.
+    + destruct (_ || _); [inv H; assumption|apply (IH (keep + 1)); auto; lia].
+Qed.
+
+(** The strongest bound by number: more than [max_nr - 1] old deltas survive only if the delta at
+    index [max_nr - 1] is protected (then the test [keep == max_nr - 1] is passed over and never
+    fires again). *)
+Theorem pinned_retention_bound_strong a c now ds k :
+  1 <= c_max_nr c -> find_deltas_truncate_age_v CountEq a c now ds = Some k ->
+  (forall x, nth_error ds (N.to_nat (c_max_nr c - 1)) = Some x -> protected c now (c_max_nr c - 1) x = false) ->
+  k <= c_max_nr c - 1.
+Proof.
+  intros H1 H Hp. apply (age_loop_bound_pinned a c now ds 0 k H1); [lia|exact H|].
+  rewrite N.sub_0_r. exact Hp.
+Qed.
+
+(** [pinned_retention_bound] in the form of DESIGN Appendix A.4: if no delta at an index >= max_nr - 1
+    is protected, at most max_nr - 1 old deltas are kept (so at most max_nr with the new one). *)
+Theorem pinned_retention_bound a c now ds k :
+  1 <= c_max_nr c -> find_deltas_truncate_age_v CountEq a c now ds = Some k ->
+  (forall i x, nth_error ds i = Some x -> c_max_nr c - 1 <= N.of_nat i -> protected c now (N.of_nat i) x = false) ->
+  k <= c_max_nr c - 1.
+Proof.
+  intros H1 H Hp. apply (pinned_retention_bound_strong a c now ds k H1 H).
+  intros x Hx. specialize (Hp _ _ Hx). rewrite N2Nat.id in Hp. apply Hp. lia.
+Qed.
+
+(** Every old delta that is kept is protected, or neither too old nor at the count limit. *)
+Lemma age_loop_kept_pinned a c now ds : forall keep k m,
+  usize_pred a (c_max_nr c) = Some m \/ (forall i x, nth_error ds i = Some x -> protected c now (keep + N.of_nat i) x = true) ->
+  age_loop_v CountEq a c now ds keep = Some k ->
+  forall i x, nth_error ds i = Some x -> keep + N.of_nat i < k ->
+    protected c now (keep + N.of_nat i) x = true
+    \/ (older_than now (c_max_secs c) x = false /\ usize_pred a (c_max_nr c) <> Some (keep + N.of_nat i)).
+Proof.
+  induction ds as [|d ds IH]; intros keep k m Hm H i x Hn Hi; [destruct i; discriminate|].
+  simpl in H. destruct i as [|i]; simpl in Hn.
+  - inv Hn. rewrite N.add_0_r in *. unfold protected. destruct (_ || _) eqn:P; [left; reflexivity|right].
+    destruct (usize_pred a (c_max_nr c)) as [m'|]; [|discriminate].
+    destruct ((keep =? m') || older_than now (c_max_secs c) x) eqn:B; [inv H; lia|].
+    apply orb_false_iff in B. destruct B as [B1 B2]. apply N.eqb_neq in B1. split; [exact B2|congruence].
+  - replace (keep + N.of_nat (S i)) with (keep + 1 + N.of_nat i) in * by lia.
+    assert (Hm' : usize_pred a (c_max_nr c) = Some m \/ (forall j y, nth_error ds j = Some y -> protected c now (keep + 1 + N.of_nat j) y = true)).
+    { destruct Hm as [Hm|Hm]; [left; exact Hm|right]. intros j y Hy. specialize (Hm (S j) y Hy).
+      replace (keep + N.of_nat (S j)) with (keep + 1 + N.of_nat j) in Hm by lia. exact Hm. }
+    destruct (_ || _).
+    + eapply IH; eassumption.
+    + destruct (usize_pred a (c_max_nr c)); [|discriminate].
+      destruct (_ || _); [inv H; lia|eapply IH; eassumption].
+Qed.
+
+Theorem pinned_kept_not_old a c now ds k i x :
+  find_deltas_truncate_age_v CountEq a c now ds = Some k -> nth_error ds i = Some x -> N.of_nat i < k ->
+  protected c now (N.of_nat i) x = true \/ older_than now (c_max_secs c) x = false.
+Proof.
+  intros H Hn Hi. unfold find_deltas_truncate_age_v in H.
+  destruct (usize_pred a (c_max_nr c)) as [m|] eqn:Em.
+  - destruct (age_loop_kept_pinned a c now ds 0 k m (or_introl Em) H i x Hn) as [P|[O _]]; [lia|left; exact P|right; exact O].
+  - (* the subtraction would have panicked: the loop only passed protected deltas *)
+    assert (G : forall ds keep k, age_loop_v CountEq a c now ds keep = Some k -> forall j y, nth_error ds j = Some y -> keep + N.of_nat j < k -> protected c now (keep + N.of_nat j) y = true).
+    { clear - Em. induction ds as [|d ds IH]; intros keep k H j y Hy Hj; [destruct j; discriminate|].
+      simpl in H. rewrite Em in H. destruct ((keep <? c_min_nr c) || younger_than now (c_min_secs c) d) eqn:P; [|discriminate].
+      destruct j as [|j]; simpl in Hy.
+      - inv Hy. rewrite N.add_0_r. exact P.
+      - replace (keep + N.of_nat (S j)) with (keep + 1 + N.of_nat j) in * by lia. eapply IH; eassumption. }
+    left. apply (G ds 0 k H i x Hn). lia.
+Qed.
+
+(** Where the loop stops: at the end of the list, or at the first delta that is not protected
+    and is at the count limit or too old. *)
+Theorem pinned_truncate_age_stop a c now ds k :
+  find_deltas_truncate_age_v CountEq a c now ds = Some k ->
+  k = N.of_nat (length ds) \/
+  exists x m, nth_error ds (N.to_nat k) = Some x /\ protected c now k x = false
+              /\ usize_pred a (c_max_nr c) = Some m /\ (k = m \/ older_than now (c_max_secs c) x = true).
+Proof.
+  unfold find_deltas_truncate_age_v.
+  assert (G : forall ds keep k, age_loop_v CountEq a c now ds keep = Some k ->
+    k = keep + N.of_nat (length ds) \/
+    exists x m, nth_error ds (N.to_nat (k - keep)) = Some x /\ protected c now k x = false
+                /\ usize_pred a (c_max_nr c) = Some m /\ (k = m \/ older_than now (c_max_secs c) x = true)).
+  { clear. induction ds as [|d ds IH]; intros keep k H; simpl in H; [inv H; left; simpl; lia|].
+    simpl length. destruct ((keep <? c_min_nr c) || younger_than now (c_min_secs c) d) eqn:P.
+    - pose proof (age_loop_le_pinned _ _ _ _ _ _ H) as Hl.
+      destruct (IH _ _ H) as [E|[x [m [Hx R]]]]; [left; lia|right].
+      exists x, m. split; [|exact R]. replace (N.to_nat (k - keep)) with (S (N.to_nat (k - (keep + 1)))) by lia. exact Hx.
+    - destruct (usize_pred a (c_max_nr c)) as [m|] eqn:Em; [|discriminate].
+      destruct ((keep =? m) || older_than now (c_max_secs c) d) eqn:B.
+      + inv H. right. exists d, m. rewrite N.sub_diag. split; [reflexivity|]. split; [exact P|]. split; [reflexivity|].
+        apply orb_true_iff in B. destruct B as [B|B]; [left; apply N.eqb_eq; exact B|right; exact B].
+      + pose proof (age_loop_le_pinned _ _ _ _ _ _ H) as Hl.
+        destruct (IH _ _ H) as [E|[x [m' [Hx R]]]]; [left; lia|right].
+        exists x, m'. split; [|exact R]. replace (N.to_nat (k - keep)) with (S (N.to_nat (k - (keep + 1)))) by lia. exact Hx. }
+  intros H. destruct (G ds 0 k H) as [E|[x [m [Hx R]]]]; [left; lia|right].
+  exists x, m. rewrite N.sub_0_r in Hx. auto.
+Qed.
+
+(** *** F11a *)
+(** max_nr = 2, min_seconds = 1 h, three deltas made within the last seconds: all three are kept
+    (four with the new one). *)
+Example pinned_retention_young :
+  find_deltas_truncate_age_v CountEq Checked (mkCfg 0 3600 2 7200 false) 100000000%Z
+    [w_young 99000000 4; w_young 98000000 3; w_young 97000000 2] = Some 3.
+Proof. vm_compute. reflexivity. Qed.
+(** min_nr = 5 >= max_nr = 2, even with every delta older than max_seconds = 0: five are kept. *)
+Example pinned_retention_min_ge_max :
+  find_deltas_truncate_age_v CountEq Checked (mkCfg 5 0 2 0 false) 100000000%Z
+    [w_young 5 7; w_young 4 6; w_young 3 5; w_young 2 4; w_young 1 3; w_young 0 2] = Some 5.
+Proof. vm_compute. reflexivity. Qed.
+(** min_nr = max_nr = 1: index 0 is protected, so the count test (keep == 0) is passed over and
+    nothing is ever cut by number. *)
+Example pinned_keeps_unprotected_example :
+  find_deltas_truncate_age_v CountEq Checked (mkCfg 1 0 1 7200 false) 100000000%Z
+    [w_young 99000000 5; w_young 98000000 4; w_young 97000000 3; w_young 96000000 2] = Some 4.
+Proof. vm_compute. reflexivity. Qed.
+
+(** The defect part of F11a (fixed by 5d8ba60d): the old count test kept deltas beyond the
+    maximum that no configured minimum protected. min_nr = max_nr = 1: index 0 is protected, so
+    [keep == 0] is passed over and never fires again; the deltas at indices 1, 2, 3 are kept. *)
+Theorem pinned_keeps_unprotected_beyond_max : ~ retention_explained (find_deltas_truncate_age_v CountEq Checked).
+Proof.
+  intros H.
+  specialize (H (mkCfg 1 0 1 7200 false) 100000000%Z
+                [w_young 99000000 5; w_young 98000000 4; w_young 97000000 3; w_young 96000000 2] 4 1%nat (w_young 98000000 4)).
+  assert (E : true = false -> False) by discriminate. apply E. symmetry.
+  rewrite <- H; [reflexivity|vm_compute; reflexivity|reflexivity|reflexivity|discriminate].
+Qed.
+
 (** *** F11b: max_nr = 0 *)
 (** With overflow checks the subtraction panics as soon as a delta is not protected ... *)
 Theorem max_nr_zero_panics c now d ds :
-  c_max_nr c = 0 -> protected c now 0 d = false -> find_deltas_truncate_age Checked c now (d :: ds) = None.
+  c_max_nr c = 0 -> protected c now 0 d = false -> find_deltas_truncate_age_v CountEq Checked c now (d :: ds) = None.
 Proof.
-  intros H0 P. unfold find_deltas_truncate_age. simpl. unfold protected in P. rewrite P. rewrite H0. reflexivity.
+  intros H0 P. unfold find_deltas_truncate_age_v. simpl. unfold protected in P. rewrite P. rewrite H0. reflexivity.
 Qed.
 (** ... and without them (release profile) [max_nr - 1] is 2^64 - 1: the count test never fires,
     any number of deltas that are not too old is kept. *)
 Theorem max_nr_zero_wraps c now ds :
   c_max_nr c = 0 -> N.of_nat (length ds) < usize_max ->
   (forall d, In d ds -> older_than now (c_max_secs c) d = false) ->
-  find_deltas_truncate_age Wrapping c now ds = Some (N.of_nat (length ds)).
+  find_deltas_truncate_age_v CountEq Wrapping c now ds = Some (N.of_nat (length ds)).
 Proof.
-  intros H0 Hl Ho. unfold find_deltas_truncate_age.
+  intros H0 Hl Ho. unfold find_deltas_truncate_age_v.
   assert (G : forall ds keep, keep + N.of_nat (length ds) < usize_max ->
              (forall d, In d ds -> older_than now (c_max_secs c) d = false) ->
-             age_loop Wrapping c now ds keep = Some (keep + N.of_nat (length ds))).
+             age_loop_v CountEq Wrapping c now ds keep = Some (keep + N.of_nat (length ds))).
   { clear - H0. induction ds as [|d ds IH]; intros keep Hl Ho; [simpl; f_equal; lia|].
-    cbn [age_loop]. rewrite H0. change (usize_pred Wrapping 0) with (Some usize_max).
+    cbn [age_loop_v]. rewrite H0. change (usize_pred Wrapping 0) with (Some usize_max).
     rewrite (Ho d) by (simpl; auto). rewrite orb_false_r.
     assert (E : (keep =? usize_max) = false) by (apply N.eqb_neq; simpl length in Hl; lia).
     rewrite E.
-    assert (R : age_loop Wrapping c now ds (keep + 1) = Some (keep + N.of_nat (length (d :: ds)))).
+    assert (R : age_loop_v CountEq Wrapping c now ds (keep + 1) = Some (keep + N.of_nat (length (d :: ds)))).
     { rewrite IH; [f_equal; simpl length; lia|simpl length in Hl; lia|intros x Hx; apply Ho; simpl; auto]. }
     destruct (_ || _); exact R. }
   rewrite G; [reflexivity|simpl; lia|exact Ho].
 Qed.
 Example max_nr_zero_refuted :
-  find_deltas_truncate_age Wrapping (mkCfg 0 0 0 7200 false) 100000000%Z
+  find_deltas_truncate_age_v CountEq Wrapping (mkCfg 0 0 0 7200 false) 100000000%Z
     [w_young 99000000 4; w_young 98000000 3; w_young 97000000 2] = Some 3
-  /\ find_deltas_truncate_age Checked (mkCfg 0 0 0 7200 false) 100000000%Z
+  /\ find_deltas_truncate_age_v CountEq Checked (mkCfg 0 0 0 7200 false) 100000000%Z
     [w_young 99000000 4; w_young 98000000 3; w_young 97000000 2] = None.
 Proof. split; vm_compute; reflexivity. Qed.
+
+(** The loop never cuts into the leading run of protected deltas ("always keep min_nr files,
+    always keep files younger than min_seconds"). *)
+Lemma age_loop_protected_pinned a c now ds : forall keep k j,
+  age_loop_v CountEq a c now ds keep = Some k -> (j <= length ds)%nat ->
+  (forall i x, (i < j)%nat -> nth_error ds i = Some x -> protected c now (keep + N.of_nat i) x = true) ->
+  keep + N.of_nat j <= k.
+Proof.
+  induction ds as [|d ds IH]; intros keep k j H Hj Hp.
+  - simpl in Hj. assert (j = 0%nat) by lia. subst j. simpl in H. inv H. simpl. lia.
+  - destruct j as [|j]; [apply age_loop_le_pinned in H; simpl; lia|].
+    simpl in H. assert (P : protected c now keep d = true).
+    { specialize (Hp 0%nat d (Nat.lt_0_succ _) eq_refl). rewrite N.add_0_r in Hp. exact Hp. }
+    unfold protected in P. rewrite P in H.
+    assert (G : keep + 1 + N.of_nat j <= k).
+    { apply (IH (keep + 1) k j H); [simpl in Hj; lia|].
+      intros i x Hi Hx. specialize (Hp (S i) x (proj1 (Nat.succ_lt_mono _ _) Hi) Hx).
+      replace (keep + N.of_nat (S i)) with (keep + 1 + N.of_nat i) in Hp by lia. exact Hp. }
+    lia.
+Qed.
+
+Theorem pinned_protected_prefix_kept a c now ds k j :
+  find_deltas_truncate_age_v CountEq a c now ds = Some k -> (j <= length ds)%nat ->
+  (forall i x, (i < j)%nat -> nth_error ds i = Some x -> protected c now (N.of_nat i) x = true) ->
+  N.of_nat j <= k.
+Proof.
+  intros H Hj Hp. pose proof (age_loop_protected_pinned a c now ds 0 k j H Hj) as G. simpl in G. apply G.
+  intros i x Hi Hx. simpl. apply Hp; assumption.
+Qed.
 
 (** ** Non-vacuity *)
 Lemma in_firstn_l {A : Type} (x : A) n : forall l, In x (firstn n l) -> In x l.
@@ -907,41 +1202,8 @@ Proof.
   repeat split; vm_compute; try reflexivity. discriminate.
 Qed.
 
-Example retention_bound_nonvacuous :
-  find_deltas_truncate_age Checked (mkCfg 0 0 2 7200 false) 100000000%Z
-    [w_young 99000000 4; w_young 98000000 3; w_young 97000000 2] = Some 1.
-Proof. vm_compute. reflexivity. Qed.
-
 Example snapshot_is_state_nonvacuous :
   RInv w_state /\ staged_nonempty (r_st w_state) = true
   /\ exists r', rstep Checked w_sz w_state OUpdate (w_orc 4000000 4) = Some r'.
 Proof. split; [apply w_state_inv|]. split; [vm_compute; reflexivity|]. eexists. vm_compute. reflexivity. Qed.
 
-(** The loop never cuts into the leading run of protected deltas ("always keep min_nr files,
-    always keep files younger than min_seconds"). *)
-Lemma age_loop_protected a c now ds : forall keep k j,
-  age_loop a c now ds keep = Some k -> (j <= length ds)%nat ->
-  (forall i x, (i < j)%nat -> nth_error ds i = Some x -> protected c now (keep + N.of_nat i) x = true) ->
-  keep + N.of_nat j <= k.
-Proof.
-  induction ds as [|d ds IH]; intros keep k j H Hj Hp.
-  - simpl in Hj. assert (j = 0%nat) by lia. subst j. simpl in H. inv H. simpl. lia.
-  - destruct j as [|j]; [apply age_loop_le in H; simpl; lia|].
-    simpl in H. assert (P : protected c now keep d = true).
-    { specialize (Hp 0%nat d (Nat.lt_0_succ _) eq_refl). rewrite N.add_0_r in Hp. exact Hp. }
-    unfold protected in P. rewrite P in H.
-    assert (G : keep + 1 + N.of_nat j <= k).
-    { apply (IH (keep + 1) k j H); [simpl in Hj; lia|].
-      intros i x Hi Hx. specialize (Hp (S i) x (proj1 (Nat.succ_lt_mono _ _) Hi) Hx).
-      replace (keep + N.of_nat (S i)) with (keep + 1 + N.of_nat i) in Hp by lia. exact Hp. }
-    lia.
-Qed.
-
-Theorem protected_prefix_kept a c now ds k j :
-  find_deltas_truncate_age a c now ds = Some k -> (j <= length ds)%nat ->
-  (forall i x, (i < j)%nat -> nth_error ds i = Some x -> protected c now (N.of_nat i) x = true) ->
-  N.of_nat j <= k.
-Proof.
-  intros H Hj Hp. pose proof (age_loop_protected a c now ds 0 k j H Hj) as G. simpl in G. apply G.
-  intros i x Hi Hx. simpl. apply Hp; assumption.
-Qed.
